@@ -1,15 +1,32 @@
-"""C18  Simplification passes achieve their stated effect; pipelines equal sequencing
+"""C18  Simplification passes achieve their stated effect; pipelines equal sequencing.
 
-P: (deductive obligations for this property are added in vlib/props/C18.py as they are built)
-B: vlib/bounded/C18.py (bounded stand-in; never counted as proved)."""
+P: MergeDuplicateGates._build_signature gives two gates of the same type EQUAL signatures whenever their operand
+   lists are equal, or equal up to order for symmetric types (arities <= 3, all aliasing) — the local fact
+   behind "after merging duplicates no two gates have the same type and operands up to order".
+B: normal forms of all passes, idempotence of RRG, pipelines vs. manual sequencing (vlib/bounded/C18.py)."""
+import z3
+
 from .. import env
-from .common import STD_TRUSTED, STD_ASSUME, run_bounded
+from ..pyvc.prove import Prover
+from .common import new_interp, finish_refuted, canary, STD_TRUSTED, STD_ASSUME, run_bounded
+from .C03 import signature_contracts
 
-LEVEL = 'exploration'
+LEVEL = 'other'
 
 
 def run(rep):
     quick = env.TIER != 'thorough'
-    rep.trusted_base = list(STD_TRUSTED)
+    rep.trusted_base = list(STD_TRUSTED) + ['axiom of sorted(): ascending permutation w.r.t. a total order on labels (differentially tested)']
+    for a in STD_ASSUME:
+        rep.assume(a)
+    rep.assume('normal forms of the other passes, RRG reachability/idempotence and the pipeline algebra (linearize/reduce) are covered by the bounded stand-in only')
+    it = new_interp()
+    pv = Prover(rep, it, 'C18')
+    for c in signature_contracts('normal-form'):
+        pv.run_contract(c)
+    a, b = z3.Bools('a b')
+    canary(rep, pv, 'C18/canary/and-is-not-commutative', [], z3.And(a, z3.Not(b)) == z3.And(b, z3.Not(a)))
+    refuted = pv.discharge(env.NPROC)
+    finish_refuted(rep, pv, refuted)
     run_bounded(rep, 'C18', quick)
-    rep.extra['explanation'] = 'bounded stand-in only in this build'
+    rep.extra['explanation'] = 'duplicate gates get equal signatures (proved from the real source); everything else about the passes and pipelines: bounded stand-in.'
